@@ -27,6 +27,8 @@ CONSTANTS
   OthersCall = "never"
   KeepPagesWritable = FALSE
   TrampFlushed = TRUE
+  Regen = FALSE
+  SavedFrom = "install"
   MaxLives = 1
 INVARIANT NoFault TypeOK Mutex HolderIsLock PrevSeesOrig OwnFakes FreeMeansOrig NoAbort Reusable Restored NoLeak NoSelfDeadlock WX
 PROPERTY HandOver NoStuck
